@@ -171,6 +171,7 @@ func genC03(tier string, r *core.Rand) C03Plan {
 		}
 	}
 	base.Peer.Byzantine = true
+	base.Peer.StaleChecksum = r.Chance(0.25)
 	p := C03Plan{PeerPlan: base}
 	if !base.LibMaster && r.Chance(0.2) {
 		p.Peer.Challenge = genChallenge(r)
@@ -227,7 +228,7 @@ func genC03(tier string, r *core.Rand) C03Plan {
 		case 0:
 			mut(kind, nth, "replace", 0, 0, genHostileLine(r))
 		case 1:
-			mut(kind, nth, "field", r.Intn(6), 0, []byte(core.Choice(r, []string{"-1", "0", "99999999999999999999", "2147483648", "x", "", "../../../tmp/x", "/abs/path", strings.Repeat("M", 300), "A\x00B", "4294967295"})))
+			mut(kind, nth, "field", r.Intn(6), 0, []byte(core.Choice(r, []string{"-1", "0", "99999999999999999999", "2147483648", "x", "", "../../../tmp/x", "/abs/path", strings.Repeat("M", 300), "A\x00B", "4294967295", "536870912", "9223372036854775807", "1073741824", "-9223372036854775808", "1", "65536"})))
 		case 2:
 			mut(kind, nth, "trunc", r.Intn(12), 0, nil)
 		case 3:
@@ -321,6 +322,7 @@ func execC03(t *testing.T, prop string, raw json.RawMessage, trace bool) core.Ou
 	var ms0, ms1 runtime.MemStats
 	runtime.ReadMemStats(&ms0)
 	received, localOut := 0, 0
+	var events uint64
 	leak, pv, stack := core.Bubble(t, trace, func(sim *core.Sim) {
 		pr, wrote := runByzantine(sim, p)
 		received = wrote
@@ -348,6 +350,7 @@ func execC03(t *testing.T, prop string, raw json.RawMessage, trace bool) core.Ou
 			}
 		}
 		sim.ProbeN("inbound-delivered-despite-damage", n)
+		events = sim.Events()
 		out.Sample = map[string]any{"layer": p.Layer, "lib_master": p.LibMaster, "lib_msgs": len(p.Lib.Msgs), "mutations": p.Peer.Mut, "hostile": len(p.Hostile), "garbage_len": len(p.Garbage), "result": describeErr(pr.res.err)}
 		sim.FillOutcome(&out)
 	})
@@ -361,7 +364,9 @@ func execC03(t *testing.T, prop string, raw json.RawMessage, trace bool) core.Ou
 	grown := ms1.TotalAlloc - ms0.TotalAlloc
 	// The station's own queued messages are re-read and re-compressed on every
 	// turn; that cost is proportional to local data, not to remote input.
-	bound := uint64(32<<20) + 512*uint64(received) + 4096*uint64(localOut)
+	// ... and the simulator itself allocates per environment event (a timer, a
+	// goroutine, a log line): with single-byte segmentation that is per byte.
+	bound := uint64(32<<20) + 512*uint64(received) + 4096*uint64(localOut) + 4096*events
 	if grown > bound {
 		out.Violate(prop, "alloc", "out-of-proportion", fmt.Sprintf("the run allocated %d bytes for %d bytes received from the remote and %d bytes of local outbound messages (bound %d)", grown, received, localOut, bound))
 	}
